@@ -405,4 +405,74 @@ theorem gjk_precision_slack (maxBound minBound delta epsRel : K)
     (hlo : minBound ≤ delta) (hhi : delta ≤ maxBound) (htest : maxBound - minBound ≤ epsRel * maxBound) :
     0 ≤ maxBound - delta ∧ maxBound - delta ≤ epsRel * maxBound := ⟨by linarith, by linarith⟩
 
+/-! ## exits of the loop body of `gjk::closest_points` (3-D model `gjkBody3`, 2-D model `gjkBody2`) -/
+
+/-- `Unit::try_new_and_get` returns a unit vector, the norm, and `v = norm · dir` -/
+theorem tryNewAndGet3_spec (hs : LawfulSqrt sq) (v d : V3 K) (m n : K) :
+    letI := fieldNum K sq
+    tryNewAndGet3 v m = some (d, n) →
+    d.x * d.x + d.y * d.y + d.z * d.z = 1 ∧ 0 < n ∧ n * n = v.x * v.x + v.y * v.y + v.z * v.z ∧
+    v.x = d.x * n ∧ v.y = d.y * n ∧ v.z = d.z * n := by
+  letI := fieldNum K sq
+  intro h
+  simp only [tryNewAndGet3] at h
+  split_ifs at h with hlt
+  simp only [Option.some.injEq, Prod.mk.injEq] at h
+  obtain ⟨rfl, rfl⟩ := h
+  have enq : v.normSq = v.x * v.x + v.y * v.y + v.z * v.z := rfl
+  rw [enq] at hlt ⊢
+  have hpos : 0 < v.x * v.x + v.y * v.y + v.z * v.z := lt_of_le_of_lt (mul_self_nonneg m) hlt
+  have hn := hs.sq_mul _ hpos.le
+  have hn0 := hs.nonneg _ hpos.le
+  have hne : sq (v.x * v.x + v.y * v.y + v.z * v.z) ≠ 0 := by
+    intro e; rw [e] at hn; linarith
+  have hnpos : 0 < sq (v.x * v.x + v.y * v.y + v.z * v.z) := lt_of_le_of_ne hn0 (Ne.symm hne)
+  refine ⟨?_, hnpos, hn, ?_, ?_, ?_⟩
+  · simp only [V3.sdiv]
+    have : @Num.sqrt K (fieldNum K sq) (v.x * v.x + v.y * v.y + v.z * v.z) = sq (v.x * v.x + v.y * v.y + v.z * v.z) := rfl
+    rw [this]
+    generalize sq (v.x * v.x + v.y * v.y + v.z * v.z) = N at hn hne
+    have key : v.x / N * (v.x / N) + v.y / N * (v.y / N) + v.z / N * (v.z / N) =
+        (v.x * v.x + v.y * v.y + v.z * v.z) / (N * N) := by field_simp
+    rw [key, hn, div_self (ne_of_gt hpos)]
+  · simp only [V3.sdiv]; exact (div_mul_cancel₀ _ hne).symm
+  · simp only [V3.sdiv]; exact (div_mul_cancel₀ _ hne).symm
+  · simp only [V3.sdiv]; exact (div_mul_cancel₀ _ hne).symm
+
+/-- the support contract of `CSOPoint::from_shapes` with respect to an obstacle `C` (the set `A ⊖ pos12·B`): the returned
+point maximises the dot product with the direction over `C` (C10 proves it for the modelled support maps). -/
+def SupportsCSO3 (C : V3 K → Prop) (fs : V3 K → CSO3 K) : Prop :=
+  ∀ dir c, C c → dir.x * c.x + dir.y * c.y + dir.z * c.z ≤
+    dir.x * (fs dir).point.x + dir.y * (fs dir).point.y + dir.z * (fs dir).point.z
+
+/-- **exit `NoIntersection(dir)` is sound** (3-D loop body): when the body leaves with `NoIntersection`, every point of the
+obstacle is farther than `max_dist` from the origin, i.e. the two shapes are more than `max_dist` apart. -/
+theorem gjkBody3_noIntersection_sound (hs : LawfulSqrt sq) (C : V3 K → Prop) (fs : V3 K → CSO3 K) (hsup : SupportsCSO3 C fs)
+    (md : K) (hmd : 0 ≤ md) (exact : Bool) (s s' : Vs3 K) (proj oldDir d : V3 K) (maxBound : Option K) :
+    letI := fieldNum K sq
+    gjkBody3 fs (some md) exact s proj oldDir maxBound = .exit (.noIntersection d) s' →
+    ∀ c, C c → md * md < c.x * c.x + c.y * c.y + c.z * c.z := by
+  letI := fieldNum K sq
+  intro h c hcC
+  unfold gjkBody3 at h
+  rcases ht : tryNewAndGet3 proj.neg epsTol with _ | ⟨dir, mb⟩
+  · rw [ht] at h; simp at h
+  · rw [ht] at h
+    obtain ⟨hunit, _, _, _⟩ := tryNewAndGet3_spec sq hs proj.neg dir epsTol mb ht
+    dsimp only at h
+    split_ifs at h with h1 h2 h3 h4 h5
+    all_goals first
+      | (simp only [GjkStep3.exit.injEq, GjkRes3.noIntersection.injEq, reduceCtorEq, false_and, and_false] at h; done)
+      | skip
+    all_goals first
+      | (simp only [GjkStep3.exit.injEq, GjkRes3.noIntersection.injEq] at h
+         obtain ⟨hd, _⟩ := h
+         subst hd
+         have hdec : decide (md < -dir.dot (fs dir).point) = true := by assumption
+         have hlt : md < -(dir.dot (fs dir).point) := by simpa using hdec
+         have hb := gjk_lower_bound3 C dir (-(dir.dot (fs dir).point)) hunit (by linarith)
+           (fun c hc => by have := hsup dir c hc; simp only [V3.dot]; linarith) c hcC
+         nlinarith)
+      | (split at h <;> (try split at h) <;> (try split_ifs at h) <;> simp at h)
+
 end C01
